@@ -113,6 +113,13 @@ pub struct LiveIter {
     pub b: usize,
     pub desc: String,
     pub installs_at_open: u64,
+    /// opened at SeqNo::MAX: not a stable snapshot (the shared active memtable keeps receiving writes), so
+    /// its items are only checked for being Ok, ordered and written-for-that-key (no order or completeness demand); it does not bound the GC
+    /// watermark, but the files of the version it was opened on must stay on disk while it lives (C20)
+    pub unpinned: bool,
+    pub files: Vec<PathBuf>,
+    pub last_front: Option<Key>,
+    pub last_back: Option<Key>,
 }
 
 pub struct Exec {
@@ -342,7 +349,7 @@ impl Exec {
 
     /// Largest legal GC watermark right now
     pub fn max_wm(&self) -> SeqNo {
-        match self.snaps.iter().map(|s| s.s).chain(self.iters.iter().map(|i| i.s)).min() {
+        match self.snaps.iter().map(|s| s.s).chain(self.iters.iter().filter(|i| !i.unpinned).map(|i| i.s)).min() {
             Some(m) => m.saturating_sub(1),
             None => self.visible.get(),
         }
@@ -350,7 +357,7 @@ impl Exec {
 
     pub fn wm(&self, frac: u16) -> SeqNo {
         let max = self.max_wm();
-        if frac >= 60_000 && self.snaps.is_empty() && self.iters.is_empty() {
+        if frac >= 60_000 && self.snaps.is_empty() && self.iters.iter().all(|i| i.unpinned) {
             // nobody holds a view: any watermark is within the usage protocol, including one above
             // every version change so far and the one this call makes itself (tests use 1_000 etc.)
             return self.visible.get() + 1_000_000;
@@ -845,8 +852,10 @@ impl Exec {
             Op::Scan(spec) => crate::scan::run_scan(self, spec)?,
             Op::IterOpen { lo, hi, snap } => {
                 if self.iters.len() < 3 {
+                    let unpinned = *snap == 1;
                     let s: SeqNo = match snap {
-                        0 | 1 => self.visible.get(),
+                        0 => self.visible.get(),
+                        1 => SeqNo::MAX,
                         n => {
                             let i = (*n - 2) as usize;
                             if i < self.snaps.len() {
@@ -860,18 +869,25 @@ impl Exec {
                     let hi = resolve_bound(&self.keys, hi);
                     let mut exp = vec![];
                     let mut loose = false;
-                    for (k, e) in self.model.scan(s) {
-                        if !in_bounds(&k, &lo, &hi) {
-                            continue;
-                        }
-                        match e {
-                            Expect::Exact(Some((v, _))) => exp.push((k, v)),
-                            Expect::Loose => loose = true,
-                            _ => {}
+                    if !unpinned {
+                        for (k, e) in self.model.scan(s) {
+                            if !in_bounds(&k, &lo, &hi) {
+                                continue;
+                            }
+                            match e {
+                                Expect::Exact(Some((v, _))) => exp.push((k, v)),
+                                Expect::Loose => loose = true,
+                                _ => {}
+                            }
                         }
                     }
                     if !loose {
                         let desc = format!("held iterator range({lo:?},{hi:?})@{s}");
+                        let files = if self.audits.files {
+                            crate::audit::version_files(self.tree())
+                        } else {
+                            vec![]
+                        };
                         let it = self.tree().range::<Key, _>((lo, hi), s, None);
                         let b = exp.len();
                         self.iters.push(LiveIter {
@@ -882,8 +898,12 @@ impl Exec {
                             b,
                             desc,
                             installs_at_open: self.installs,
+                            unpinned,
+                            files,
+                            last_front: None,
+                            last_back: None,
                         });
-                        self.stats.bump("it.open");
+                        self.stats.bump(if unpinned { "it.open_at_max" } else { "it.open" });
                     }
                 }
             }
@@ -891,6 +911,11 @@ impl Exec {
                 if !self.iters.is_empty() {
                     let i = (*slot as usize * self.iters.len()) >> 8;
                     let installs = self.installs;
+                    if self.iters[i].unpinned {
+                        let pops = pops.clone();
+                        self.step_unpinned(i, &pops, false)?;
+                        return self.finish_apply();
+                    }
                     let li = &mut self.iters[i];
                     for p in pops {
                         let got = if *p { li.it.next() } else { li.it.next_back() };
@@ -930,6 +955,12 @@ impl Exec {
             Op::IterClose { slot, front } => {
                 if !self.iters.is_empty() {
                     let i = (*slot as usize * self.iters.len()) >> 8;
+                    if self.iters[i].unpinned {
+                        self.step_unpinned(i, &[*front], true)?;
+                        self.iters.remove(i);
+                        self.stats.bump("it.close");
+                        return self.finish_apply();
+                    }
                     let mut li = self.iters.remove(i);
                     loop {
                         let got = if *front { li.it.next() } else { li.it.next_back() };
@@ -966,8 +997,43 @@ impl Exec {
                 // handled by the dedicated C19 driver
             }
         }
+        self.finish_apply()
+    }
+
+    fn finish_apply(&mut self) -> R<()> {
         if self.op_no % 4 == 0 {
             self.classify_layout();
+        }
+        Ok(())
+    }
+
+    /// Consume items of an iterator opened at SeqNo::MAX: every item must be Ok and carry a value that was
+    /// written for its key (`drain` = run to the end from one side).
+    fn step_unpinned(&mut self, i: usize, pops: &[bool], drain: bool) -> R<()> {
+        let mut n = 0u64;
+        let mut k = 0usize;
+        loop {
+            let p = if drain { pops[0] } else if k < pops.len() { pops[k] } else { break };
+            k += 1;
+            let li = &mut self.iters[i];
+            let got = if p { li.it.next() } else { li.it.next_back() };
+            let Some(g) = got else { break };
+            let (key, val) = guard_kv(g).map_err(|w| format!("{} (opened at SeqNo::MAX, {} version installs ago): {w}", li.desc, self.installs - li.installs_at_open))?;
+            if !self.model.was_ever_written(&key, &val) {
+                return Err(format!("{}: yielded a value never written for key {}", li.desc, crate::util::hex(&key)));
+            }
+            // no order demand: writes that land in the shared active memtable while the iterator is alive
+            // may legitimately show up (even a newer version of a key it has already passed)
+            if p {
+                li.last_front = Some(key);
+            } else {
+                li.last_back = Some(key);
+            }
+            n += 1;
+        }
+        self.stats.add("it.items_at_max", n);
+        if self.installs > self.iters[i].installs_at_open {
+            self.stats.bump("it.step_at_max_after_version_change");
         }
         Ok(())
     }
